@@ -130,7 +130,13 @@ class Field:
         self.byte_order = byte_order  # None | 'BigEndian' | 'LittleEndian'
         self.dyn_count = dyn_count    # None | name of the length field (array count = value of that field)
         self.dyn_offset = dyn_offset  # None | name of the field added to the static offset
-        self.virtual = virtual        # None | ('alias', target) | ('expr', text, fn(values)->int, deps)
+        self.virtual = virtual        # None | ('alias', target) | ('expr', text, fn(values)->int, deps, writable)
+        #                               | ('bool', text, fn(values)->bool, deps, False)
+        self.args = None              # struct-typed field (or array of them): arguments for the runtime
+        #                               parameters of the type — names of UInt:8 fields or int constants
+        self.sym = None               # layout virtuals: symbolic form ('+'|'*'|'>'|'=', source, constant) | ('alias', source)
+        self.layout = False           # virtual field whose value is used by the location / size /
+        #                               existence condition of another field of the struct
         self.anonymous_bits = anonymous_bits  # None | StructT (kind 'bits') for `N [+k] bits:`
 
     def deps(self):
@@ -143,12 +149,15 @@ class Field:
             d.append(self.dyn_offset)
         if self.virtual:
             d.extend([self.virtual[1]] if self.virtual[0] == "alias" else self.virtual[3])
+        if self.args:
+            d.extend(a for a in self.args if isinstance(a, str))
         return d
 
 
 class StructT:
-    def __init__(self, name, kind, fields, static_size):
+    def __init__(self, name, kind, fields, static_size, params=()):
         self.name, self.kind, self.fields, self.static_size = name, kind, fields, static_size
+        self.params = list(params)     # names of runtime parameters (all UInt:8)
         # static_size: bytes (struct) or bits (bits) of the fixed part; dynamic tails extend it.
 
     def max_size(self):
@@ -156,9 +165,9 @@ class StructT:
         for f in self.fields:
             if f.virtual:
                 continue
-            top = f.offset + (MAXDYN if f.dyn_offset else 0)
+            top = f.offset + (DYN_BOUND if f.dyn_offset else 0)
             if f.dyn_count:
-                top += f.size * MAXDYN
+                top += f.size * DYN_BOUND
             else:
                 top += f.size
             m = max(m, top)
@@ -169,32 +178,39 @@ class StructT:
 
 
 MAXDYN = 5
+DYN_BOUND = 48      # upper bound of any value used as a dynamic offset / count (tags ≤ MAXDYN, `let`s ≤ 5*3*3)
 
 
-def ftype_emb(ft, in_bits):
+def ftype_emb(ft, in_bits, args=None):
+    argtxt = "(%s)" % ", ".join(str(a) for a in args) if args else ""
     if ft[0] == "scalar":
         return ft[1].emb_type(False)
     if ft[0] == "struct":
-        return ft[1].name
+        return ft[1].name + argtxt
     # array: element types need explicit sizes for scalars
     _, elem, count = ft
     suffix = "[%s]" % ("" if count is None else count)
     if elem[0] == "scalar":
         return elem[1].emb_type(True) + suffix
     if elem[0] == "struct":
-        return elem[1].name + suffix
+        return elem[1].name + argtxt + suffix
     # two-dimensional: inner array has a static count
     return ftype_emb(elem, in_bits) + suffix
 
 
 def struct_emb(st):
-    out = ["%s %s:" % (st.kind, st.name)]
+    out = ["%s %s%s:" % (st.kind, st.name, "(%s)" % ", ".join("%s: UInt:8" % p for p in st.params) if st.params else "")]
     if not st.fields:
         out.append("  let emboss_c06_empty = 0")
     for f in st.fields:
         ind = "  "
         if f.cond:
-            out.append("  if %s == %d:" % f.cond)
+            if f.cond[1] is True:
+                out.append("  if %s:" % f.cond[0])
+            elif f.cond[1] is False:
+                out.append("  if %s == false:" % f.cond[0])
+            else:
+                out.append("  if %s == %d:" % f.cond)
             ind = "    "
         if f.virtual:
             if f.virtual[0] == "alias":
@@ -215,7 +231,7 @@ def struct_emb(st):
                 size = f.dyn_count if f.size == 1 else "%s*%d" % (f.dyn_count, f.size)
             else:
                 size = str(f.size)
-            out.append("%s%s [+%s] %s %s" % (ind, off, size, ftype_emb(f.ftype, st.kind == "bits"), f.name))
+            out.append("%s%s [+%s] %s %s" % (ind, off, size, ftype_emb(f.ftype, st.kind == "bits", f.args), f.name))
         if f.anonymous_bits is None or f.virtual:
             if f.attr:
                 out.append('%s  [text_output: "%s"]' % (ind, f.attr))
@@ -291,9 +307,12 @@ def gen_byte_scalar(r, enums):
     return Scalar(k, r.choice([8, 8, 16, 24, 32, 40, 64, 64]))
 
 
-def gen_struct(r, name, enums, fixed_structs, bits_types, allow_dynamic=True, nfields=None):
+def gen_struct(r, name, enums, fixed_structs, bits_types, allow_dynamic=True, nfields=None, focus=None,
+               param_structs=()):
     """fixed_structs: previously generated structs with a fixed size (usable as members and
-    array elements)."""
+    array elements).  focus="deps": a struct about dependency shapes — tags, `let`s that layout
+    goes through, conditional and dynamically placed fields, declared in arbitrary order."""
+    deps_focus = focus == "deps"
     fields, pos = [], 0
     nfields = nfields or r.randint(1, 7)
     tags = []      # names of small UInt:8 fields usable as tag / length / offset
@@ -310,7 +329,7 @@ def gen_struct(r, name, enums, fixed_structs, bits_types, allow_dynamic=True, nf
     def order(sz_bytes):
         return r.choice([None, None, "BigEndian", "LittleEndian"]) if sz_bytes > 0 else None
 
-    if allow_dynamic and r.random() < 0.75:
+    if allow_dynamic and (deps_focus or r.random() < 0.75):
         for _ in range(r.randint(1, 2)):
             nm = fname("n")
             fields.append(Field(nm, ("scalar", Scalar("uint", 8)), pos, 1, attr=r.choice([None] * 9 + ["Skip", "Emit"])))
@@ -318,14 +337,99 @@ def gen_struct(r, name, enums, fixed_structs, bits_types, allow_dynamic=True, nf
             tags.append(nm)
             uints.append((nm, 8))
             pos += 1
+    # layout virtuals: `let` fields computed from the tags (or from another layout virtual) that
+    # the locations / sizes / existence conditions of physical fields go through.  Kinds follow
+    # write_inference.py: alias and `x + k` of a writable field are writable (ordinary text
+    # fields), `x * k` and comparisons are read-only (comments only).
+    lay_int, lay_bool = [], []       # [(name, max value)], [name]
+    layout_fields = []
+    if tags and (deps_focus or r.random() < 0.65):
+        writable = {t: True for t in tags}
+        vmax = {t: MAXDYN for t in tags}
+        transform = {t: False for t in tags}     # written through an inverted expression (`x + k`)
+        for _ in range(r.randint(1, 3)):
+            src = r.choice(tags + [n for n, _ in lay_int]) if r.random() < 0.35 else r.choice(tags)
+            style = r.choice(["mul", "add", "alias", "bool", "bool"])
+            if style in ("mul", "add") and vmax[src] > MAXDYN * 2:
+                style = "alias"
+            at = r.choice([None] * 5 + ["Skip", "Emit"])
+            if style == "bool":
+                nm = fname("lb")
+                c = r.randint(0, 2)
+                if r.random() < 0.5:
+                    virt = ("bool", "%s > %d" % (src, c), (lambda vals, s=src, c=c: vals[s] > c), [src], False)
+                    sym = (">", src, c)
+                else:
+                    virt = ("bool", "%s == %d" % (src, c), (lambda vals, s=src, c=c: vals[s] == c), [src], False)
+                    sym = ("=", src, c)
+                f = Field(nm, None, 0, 0, virtual=virt, attr=at)
+                f.sym = sym
+                lay_bool.append(nm)
+            elif style == "alias":
+                if writable[src] and transform[src]:
+                    # an alias of a writable `x + k` field does not compile once its accessor is used
+                    # (open finding of C07: alias-of-virtual-field-uses-deleted-default-constructor);
+                    # such a module would be lost for this check
+                    src = r.choice(tags)
+                nm = fname("la")
+                f = Field(nm, None, 0, 0, virtual=("alias", src), attr=at)
+                f.sym = ("alias", src)
+                writable[nm], vmax[nm], transform[nm] = writable[src], vmax[src], transform[src]
+                lay_int.append((nm, vmax[nm]))
+            elif style == "add":
+                nm = fname("lv")
+                k = r.randint(1, 3)
+                f = Field(nm, None, 0, 0, attr=at,
+                          virtual=("expr", "%s + %d" % (src, k), (lambda vals, s=src, k=k: vals[s] + k), [src],
+                                   writable[src]))
+                f.sym = ("+", src, k)
+                writable[nm], vmax[nm], transform[nm] = writable[src], vmax[src] + k, True
+                lay_int.append((nm, vmax[nm]))
+            else:
+                nm = fname("lv")
+                k = r.randint(2, 3)
+                f = Field(nm, None, 0, 0, attr=at,
+                          virtual=("expr", "%s * %d" % (src, k), (lambda vals, s=src, k=k: vals[s] * k), [src], False))
+                f.sym = ("*", src, k)
+                writable[nm], vmax[nm], transform[nm] = False, vmax[src] * k, False
+                lay_int.append((nm, vmax[nm]))
+            f.layout = True
+            layout_fields.append(f)
+            fields.append(f)
+
+    def pick_args(st2):
+        """Arguments for the runtime parameters of st2: a tag, a layout `let`, or a constant."""
+        if not st2.params:
+            return None
+        out = []
+        for _ in st2.params:
+            x = r.random()
+            if tags and x < 0.55:
+                out.append(r.choice(tags))
+            elif lay_int and x < 0.8:
+                out.append(r.choice(lay_int)[0])
+            else:
+                out.append(r.randint(0, 3))
+        return out
+
+    def pick_cond():
+        """Existence condition on a tag, or through a layout virtual."""
+        if lay_bool and r.random() < 0.5:
+            return (r.choice(lay_bool), r.random() < 0.8)
+        if lay_int and r.random() < 0.3:
+            return (r.choice(lay_int)[0], r.randint(0, 4))
+        return (r.choice(tags), r.randint(0, 2))
+
     for _ in range(nfields):
         kind = r.choice(["scalar", "scalar", "scalar", "bits", "struct", "array", "array", "anon", "virtual", "cond"])
+        if deps_focus and r.random() < 0.4:
+            kind = "cond"
         cond = None
         if kind == "cond":
             if not tags:
                 kind = "scalar"
             else:
-                cond = (r.choice(tags), r.randint(0, 2))
+                cond = pick_cond()
                 kind = r.choice(["scalar", "array", "struct"])
         if kind == "scalar":
             sc = gen_byte_scalar(r, enums)
@@ -339,12 +443,17 @@ def gen_struct(r, name, enums, fixed_structs, bits_types, allow_dynamic=True, nf
             fields.append(Field(fname("b"), ("struct", bt), pos, bt.static_size // 8, cond=cond, attr=attr(),
                                 byte_order=order(1)))
             pos += bt.static_size // 8
-        elif kind == "struct" and fixed_structs:
-            st = r.choice(fixed_structs)
+        elif kind == "struct" and (fixed_structs or param_structs):
+            if param_structs and (not fixed_structs or r.random() < 0.4):
+                st = r.choice(param_structs)
+            else:
+                st = r.choice(fixed_structs)
             fields.append(Field(fname("m"), ("struct", st), pos, st.static_size, cond=cond, attr=attr()))
+            fields[-1].args = pick_args(st)
             pos += st.static_size
         elif kind == "array":
             style = r.choice(["u8", "u8", "scalar", "struct", "2d", "long"])
+            arr_args = None
             if style == "struct" and not fixed_structs:
                 style = "scalar"
             if style == "u8":
@@ -355,7 +464,11 @@ def gen_struct(r, name, enums, fixed_structs, bits_types, allow_dynamic=True, nf
                 sc = gen_byte_scalar(r, enums)
                 elem, esz = ("scalar", sc), sc.bits // 8
             elif style == "struct":
-                st = r.choice([s for s in fixed_structs if s.static_size > 0] or fixed_structs)
+                if param_structs and r.random() < 0.35:
+                    st = r.choice(param_structs)
+                    arr_args = pick_args(st)
+                else:
+                    st = r.choice([s for s in fixed_structs if s.static_size > 0] or fixed_structs)
                 elem, esz = ("struct", st), st.static_size
                 if esz == 0:
                     elem, esz = ("scalar", Scalar("uint", 8)), 1
@@ -366,6 +479,7 @@ def gen_struct(r, name, enums, fixed_structs, bits_types, allow_dynamic=True, nf
             fields.append(Field(fname("a"), ("array", elem, count), pos, esz * count, cond=cond, attr=attr(),
                                 byte_order=order(esz) if elem[0] == "scalar" and esz > 1 else None))
             fields[-1].esz = esz
+            fields[-1].args = arr_args if elem[0] == "struct" and elem[1].params else None
             pos += esz * count
         elif kind == "anon":
             nbytes = r.choice([1, 2, 4])
@@ -396,9 +510,11 @@ def gen_struct(r, name, enums, fixed_structs, bits_types, allow_dynamic=True, nf
                 uints.append((nm, 8))
             pos += 1
     static_size = pos
-    if allow_dynamic and tags and r.random() < 0.8:
-        style = r.choice(["bytes", "bytes", "wide", "struct", "offset"])
+    if allow_dynamic and tags and (deps_focus or r.random() < 0.8):
+        style = r.choice(["bytes", "bytes", "wide", "struct", "offset", "offset"])
         ln = r.choice(tags)
+        if lay_int and r.random() < (0.85 if deps_focus else 0.6):
+            ln = r.choice(lay_int)[0]        # location / size through a `let`
         if style == "offset":
             sc = Scalar("uint", 8)
             fields.append(Field(fname("x"), ("scalar", sc), pos, 1, dyn_offset=ln, attr=attr()))
@@ -416,11 +532,52 @@ def gen_struct(r, name, enums, fixed_structs, bits_types, allow_dynamic=True, nf
             fields.append(f)
     # the dependency ordering is exercised by declaring the tag/length fields *after* their
     # users (offsets are explicit, so the layout is unchanged)
-    if tags and r.random() < 0.45:
+    # — and, more generally, by declaring the fields in an arbitrary source order: inputs after
+    # the `let`s computed from them, `let`s after the physical fields located through them, …
+    shape = r.random()
+    if deps_focus:
+        shape = 0.3 + 0.4 * shape        # always re-ordered: reversed or shuffled
+    if tags and shape < 0.3:
         fields = [f for f in fields if not getattr(f, "small", False)] + \
                  [f for f in fields if getattr(f, "small", False)]
+    elif shape < 0.45:
+        fields = fields[::-1]
+    elif shape < 0.7:
+        fields = list(fields)
+        r.shuffle(fields)
     st = StructT(name, "struct", fields, static_size)
     return st
+
+
+def gen_param_struct(r, name, enums):
+    """A fixed-size struct with one runtime parameter `k: UInt:8`: an existence condition on the
+    parameter, directly or through a `let`; a read-only `let` of the parameter (comment only)."""
+    fields = []
+    fields.append(Field("p_a", ("scalar", Scalar("uint", 8)), 0, 1, attr=r.choice([None] * 5 + ["Skip", "Emit"])))
+    sc = gen_byte_scalar(r, enums)
+    if sc.bits > 32:
+        sc = Scalar("uint", 16)
+    c = r.randint(0, 2)
+    cond = None
+    style = r.choice(["direct", "let", "let", "none"])
+    if style == "direct":
+        cond = ("k", c)
+    elif style == "let":
+        lb = Field("p_big", None, 0, 0, attr=r.choice([None, None, "Skip"]),
+                   virtual=("bool", "k > %d" % c, (lambda vals, c=c: vals["k"] > c), ["k"], False))
+        lb.layout, lb.sym = True, (">", "k", c)
+        fields.append(lb)
+        cond = ("p_big", r.random() < 0.8)
+    fields.append(Field("p_b", ("scalar", sc), 1, sc.bits // 8, cond=cond, attr=r.choice([None] * 5 + ["Skip", "Emit"])))
+    if r.random() < 0.6:
+        kk = r.randint(2, 3)
+        v = Field("p_twice", None, 0, 0, attr=r.choice([None, None, "Skip"]),
+                  virtual=("expr", "k * %d" % kk, (lambda vals, kk=kk: vals["k"] * kk), ["k"], False))
+        v.layout, v.sym = True, ("*", "k", kk)
+        fields.append(v)
+    if r.random() < 0.5:
+        fields = fields[::-1]
+    return StructT(name, "struct", fields, 1 + sc.bits // 8, params=["k"])
 
 
 def gen_module(r, name, size="normal"):
@@ -428,10 +585,15 @@ def gen_module(r, name, size="normal"):
     bits_types = [gen_bits(r, "%sBits%d" % (name.capitalize(), i), enums, r.choice([8, 16, 32]))
                   for i in range(r.randint(1, 2))]
     fixed, types = [], list(bits_types)
+    param_structs = [gen_param_struct(r, "%sPar%d" % (name.capitalize(), i), enums) for i in range(r.randint(0, 2))]
+    types.extend(param_structs)
     nst = r.randint(3, 5)
     for i in range(nst):
         dyn = i >= 1 and r.random() < 0.7
-        st = gen_struct(r, "%sSt%d" % (name.capitalize(), i), enums, fixed, bits_types, allow_dynamic=dyn)
+        focus = "deps" if i == nst - 1 else None
+        st = gen_struct(r, "%sSt%d" % (name.capitalize(), i), enums, fixed, bits_types,
+                        allow_dynamic=dyn or focus is not None, nfields=r.randint(2, 5) if focus else None,
+                        focus=focus, param_structs=param_structs)
         types.append(st)
         if st.is_fixed() and not any(f.cond for f in st.fields) and st.static_size <= 24:
             fixed.append(st)
@@ -449,7 +611,6 @@ class Built:
         self.emitted_paths = set()     # paths of leaves whose text must be present
         self.tree = None
         self.flags = set()             # narrow predicates of known findings that hold for this buffer
-        self.anon_skip_names = set()   # names of anonymous-bits subfields marked Skip (top level of this struct)
 
 
 def put_bits(buf, byte_off, nbytes, order, raw):
@@ -465,8 +626,6 @@ def build_bits_value(r, bt, emitted, path, built, values_out):
         sc = g.ftype[1]
         v = sc.pick(r)
         values_out[g.name] = v
-        if sc.kind == "enum" and sc.enum.signed and v < 0 and g.size < bt.static_size and emitted and g.attr != "Skip":
-            built.flags.add("negative-signed-enum-in-wider-bits-container")
         raw |= sc.raw(v) << g.offset
         em = emitted and g.attr != "Skip"
         built.dump.append((path + g.name, sc.dump(v)))
@@ -481,7 +640,7 @@ def build_bits_value(r, bt, emitted, path, built, values_out):
     return raw, tree, full
 
 
-def build_value(r, ft, order, default_order, buf_off, emitted, path, built):
+def build_value(r, ft, order, default_order, buf_off, emitted, path, built, params=None):
     """Encodes a random value of type `ft` at byte offset buf_off.  Returns text tree node."""
     order = order or default_order
     if ft[0] == "scalar":
@@ -505,7 +664,7 @@ def build_value(r, ft, order, default_order, buf_off, emitted, path, built):
             for i in range(nbytes):
                 built.mask[buf_off + i] = "E" if (emitted and full) else ("U" if emitted else built.mask[buf_off + i])
             return ("struct", tree), None
-        tree = build_struct(r, st, default_order, buf_off, emitted, path + ".", built)
+        tree = build_struct(r, st, default_order, buf_off, emitted, path + ".", built, params=params)
         return ("struct", tree), None
     if ft[0] == "array":
         _, elem, count = ft
@@ -521,28 +680,88 @@ def elem_size(elem):
     return elem_size(elem[1]) * elem[2]
 
 
-def build_array(r, elem, count, order, default_order, buf_off, emitted, path, built):
+def build_array(r, elem, count, order, default_order, buf_off, emitted, path, built, params=None):
     items = []
     esz = elem_size(elem)
     for i in range(count):
         p = "%s[%d]" % (path, i)
         if elem[0] == "array":
-            node = build_array(r, elem[1], elem[2], order, default_order, buf_off + i * esz, emitted, p, built)
+            node = build_array(r, elem[1], elem[2], order, default_order, buf_off + i * esz, emitted, p, built, params)
         else:
-            node, _ = build_value(r, elem, order, default_order, buf_off + i * esz, emitted, p, built)
+            node, _ = build_value(r, elem, order, default_order, buf_off + i * esz, emitted, p, built, params)
         items.append(node)
     return ("array", items)
 
 
-def build_struct(r, st, default_order, base, emitted, path, built, size_out=None):
+
+def field_by_name(st):
+    by = {}
+    for f in st.fields:
+        by[f.name] = f
+        if f.anonymous_bits is not None:
+            for g in f.anonymous_bits.fields:
+                by[g.name] = g
+    return by
+
+
+def virtual_writable(st, f):
+    """write_inference.py: an alias of a writable field and `x + k` of a writable field are
+    writable; everything else (`x * k`, comparisons) is read-only."""
+    by = field_by_name(st)
+    while f.virtual:
+        if f.virtual[0] == "bool" or (f.virtual[0] == "expr" and not f.virtual[4]):
+            return False
+        src = f.virtual[1] if f.virtual[0] == "alias" else f.virtual[3][0]
+        f = by[src]
+    return True
+
+
+def physical_sources(st, name, seen=None):
+    """Names of the physical fields a field's value is computed from (the field itself when it
+    is physical)."""
+    by = field_by_name(st)
+    seen = seen if seen is not None else set()
+    if name in seen or name not in by:
+        return set()
+    seen.add(name)
+    f = by[name]
+    if not f.virtual:
+        return {name}
+    out = set()
+    for d in f.deps():
+        out |= physical_sources(st, d, seen)
+    return out
+
+
+def mark_sources_written(st, f, base, built):
+    """A writable virtual field in the text writes the bytes of its physical source."""
+    for src in physical_sources(st, f.name):
+        for g in st.fields:
+            if g.name == src and not g.virtual and g.anonymous_bits is None:
+                o = base + g.offset
+                for i in range(g.size):
+                    if built.mask[o + i] == "Z":
+                        built.mask[o + i] = "E"
+
+
+def build_struct(r, st, default_order, base, emitted, path, built, size_out=None, params=None):
     """Encodes a random value of struct `st` at byte offset `base`.  Returns the ordered
     list [(field name, node)] of fields the text must contain *in source order*; the caller
     re-orders by the real `fields_in_dependency_order`."""
-    values = {}
+    values = dict(params or {})       # runtime parameters are read like fields
     # first: the small tag/length fields (they decide layout), whatever their position
     for f in st.fields:
         if getattr(f, "small", False):
             values[f.name] = r.randint(0, MAXDYN) if r.random() < 0.9 else r.choice([0, 1, 2])
+    # then the `let`s that layout goes through (inputs are tags or other such `let`s)
+    pending = [f for f in st.fields if f.virtual and f.layout]
+    while pending:
+        ready = [f for f in pending if all(d in values for d in f.deps())]
+        if not ready:
+            raise AssertionError("layout virtuals of %s do not resolve" % st.name)
+        for f in ready:
+            values[f.name] = values[f.virtual[1]] if f.virtual[0] == "alias" else f.virtual[2](values)
+            pending.remove(f)
     tree = []
     top = st.static_size
     for f in st.fields:
@@ -561,11 +780,6 @@ def build_struct(r, st, default_order, base, emitted, path, built, size_out=None
             vals = {}
             raw, sub, full = build_bits_value(r, bt, emitted, path, built, vals)
             values.update(vals)
-            if emitted:
-                for g in bt.fields:
-                    if g.attr == "Skip":
-                        built.flags.add("skip-on-anonymous-bits-subfield-ignored")
-                        built.anon_skip_names.add(g.name)
             put_bits(built.buf, base + f.offset, f.size, default_order, raw)
             for i in range(f.size):
                 if emitted:
@@ -576,9 +790,16 @@ def build_struct(r, st, default_order, base, emitted, path, built, size_out=None
             built.dump.append((path + f.name, "absent"))
             continue
         off = base + f.offset + (values[f.dyn_offset] if f.dyn_offset else 0)
+        sub_params = None
+        if f.args:
+            ft0 = f.ftype
+            while ft0[0] == "array":
+                ft0 = ft0[1]
+            sub_params = {p: (values[a] if isinstance(a, str) else a) for p, a in zip(ft0[1].params, f.args)}
         if f.ftype[0] == "array":
             count = values[f.dyn_count] if f.dyn_count else f.ftype[2]
-            node = build_array(r, f.ftype[1], count, f.byte_order, default_order, off, em, path + f.name, built)
+            node = build_array(r, f.ftype[1], count, f.byte_order, default_order, off, em, path + f.name, built,
+                               sub_params)
             top = max(top, f.offset + elem_size(f.ftype[1]) * count) if f.dyn_count else top
         else:
             if getattr(f, "small", False):
@@ -591,7 +812,8 @@ def build_struct(r, st, default_order, base, emitted, path, built, size_out=None
                     built.mask[off] = "E"
                 node = ("scalar", sc, v)
             else:
-                node, v = build_value(r, f.ftype, f.byte_order, default_order, off, em, path + f.name, built)
+                node, v = build_value(r, f.ftype, f.byte_order, default_order, off, em, path + f.name, built,
+                                      sub_params)
                 if v is not None and f.ftype[0] == "scalar" and f.ftype[1].kind == "uint":
                     values[f.name] = v
             if f.dyn_offset:
@@ -611,23 +833,15 @@ def build_struct(r, st, default_order, base, emitted, path, built, size_out=None
         if f.virtual[0] == "alias":
             tgt = f.virtual[1]
             if tgt in values and em:
-                tree.append((f.name, ("scalar", Scalar("uint", 64), values[tgt])))
-                # the alias writes its target's bytes
-                for g in st.fields:
-                    if g.name == tgt and not g.virtual:
-                        o = base + g.offset
-                        for i in range(g.size):
-                            if built.mask[o + i] == "Z":
-                                built.mask[o + i] = "E"
+                if virtual_writable(st, f):
+                    tree.append((f.name, ("scalar", Scalar("uint", 64), values[tgt])))
+                    mark_sources_written(st, f, base, built)
+                else:
+                    tree.append((f.name, ("comment", values[tgt])))
         elif em and all(d in values for d in f.virtual[3]):
-            if f.virtual[4]:
+            if f.virtual[0] == "expr" and virtual_writable(st, f):
                 tree.append((f.name, ("scalar", Scalar("int", 64), f.virtual[2](values))))
-                for g in st.fields:
-                    if g.name in f.virtual[3] and not g.virtual:
-                        o = base + g.offset
-                        for i in range(g.size):
-                            if built.mask[o + i] == "Z":
-                                built.mask[o + i] = "E"
+                mark_sources_written(st, f, base, built)
             else:
                 tree.append((f.name, ("comment", f.virtual[2](values))))
     if size_out is not None:
@@ -657,17 +871,27 @@ def skip_locates_emitted(st, seen=None):
     if st.name in seen:
         return False
     seen.add(st.name)
-    by_name = {f.name: f for f in st.fields}
+    by_name = field_by_name(st)
+
+    def unwritten_skip_source(name, visiting):
+        """The value of field `name` is needed to lay out an emitted field.  True when the text
+        cannot establish it before: a physical field marked Skip, or a virtual field that is not
+        itself written (read-only, or marked Skip) and is computed from such a field."""
+        if name not in by_name or name in visiting:
+            return False
+        d = by_name[name]
+        if not d.virtual:
+            return d.attr == "Skip"
+        if d.attr != "Skip" and virtual_writable(st, d):
+            return False            # written as an ordinary field, before its dependants
+        return any(unwritten_skip_source(x, visiting | {name}) for x in d.deps())
+
     for f in st.fields:
-        if f.anonymous_bits is not None:
-            for g in f.anonymous_bits.fields:
-                by_name[g.name] = g
-    for f in st.fields:
-        if f.attr == "Skip":
+        if f.attr == "Skip" or f.virtual:
             continue
         for d in ([f.cond[0]] if f.cond else []) + ([f.dyn_count] if f.dyn_count else []) + \
-                ([f.dyn_offset] if f.dyn_offset else []):
-            if d in by_name and by_name[d].attr == "Skip":
+                ([f.dyn_offset] if f.dyn_offset else []) + [a for a in (f.args or []) if isinstance(a, str)]:
+            if unwritten_skip_source(d, frozenset()):
                 return True
         if f.virtual is None and f.ftype is not None:
             ft = f.ftype
@@ -679,11 +903,31 @@ def skip_locates_emitted(st, seen=None):
 
 
 def intended_deps(st):
-    """{field name: [names it depends on]} for emission-order checking."""
+    """{field name: [names it depends on directly]}, read off the source text the generator
+    wrote: the tag of an existence condition, the names in a location / size, the names in a
+    `let` expression."""
     out = {}
     for f in st.fields:
         out[f.name] = f.deps()
         if f.anonymous_bits is not None:
             for g in f.anonymous_bits.fields:
-                out[g.name] = [f.name]   # alias of a sub-field of the anonymous field
+                out[g.name] = [f.name] + ([f.cond[0]] if f.cond else [])
+    return out
+
+
+def transitive_deps(st):
+    """{field name: set of all fields it depends on, directly or through other fields (virtual
+    ones included)} — the relation of the property statement "fields are emitted after the
+    fields they depend on", computed from the source alone."""
+    direct = intended_deps(st)
+    out = {}
+    for n in direct:
+        seen, todo = set(), list(direct[n])
+        while todo:
+            d = todo.pop()
+            if d in seen:
+                continue
+            seen.add(d)
+            todo.extend(direct.get(d, []))
+        out[n] = seen
     return out
